@@ -28,21 +28,32 @@ ConcStep(To, e) ==
     ELSE IF e.ev \in {"commit", "awrite"}
     THEN LET cl == To.call[e.c] IN
          IF cl.op = "none" THEN V(FALSE, To, "harness: commit outside a call")
-         ELSE IF Multi(cl.op) THEN V(TRUE, [To EXCEPT !.X = e.pairs, !.call[e.c].st = "multi"], "")
+         ELSE IF Multi(cl.op)
+         THEN V(TRUE, [To EXCEPT !.X = e.pairs,
+                                 !.call = [c \in DOMAIN To.call |->
+                                    IF c = e.c THEN [To.call[c] EXCEPT !.st = "multi"]
+                                    ELSE IF To.call[c].op # "none" /\ To.call[c].st = "open"
+                                    THEN [To.call[c] EXCEPT !.cand = @ \cup {IDispatch(e.pairs, To.call[c]).ret}]
+                                    ELSE To.call[c]]], "")
          ELSE LET r == IDispatch(To.X, cl)
                   chg == {k \in {To.X[i][1] : i \in DOMAIN To.X} \cup {r.X[i][1] : i \in DOMAIN r.X} :
                              IGet(To.X, k).ret # IGet(r.X, k).ret}
               IN IF e.pairs = To.X /\ cl.st = "open"
                  THEN \* a transaction of the call that changed nothing: an observation point of the call
                       \* (peekitem re-reads in a new transaction when its value file vanished, setdefault looks up first, ...)
-                      V(TRUE, [To EXCEPT !.call[e.c].cand = @ \cup (IF r.X = To.X THEN {r.ret} ELSE {})], "")
+                      \* (an assignment of the value already stored still replaces the row and its value file)
+                      V(TRUE, [To EXCEPT !.call = [c \in DOMAIN To.call |->
+                                 IF c = e.c THEN [To.call[c] EXCEPT !.cand = @ \cup (IF r.X = To.X THEN {r.ret} ELSE {})]
+                                 ELSE IF To.call[c].op # "none" /\ cl.op = "setitem"
+                                 THEN [To.call[c] EXCEPT !.written = @ \cup {cl.a.k}]
+                                 ELSE To.call[c]]], "")
                  ELSE IF r.X # e.pairs
                  THEN V(FALSE, To, "C12 contents published by the commit of " \o cl.op \o
                                    " are not that operation applied to the contents committed just before: " \o ToJson(r.X))
                  ELSE V(TRUE, [To EXCEPT !.X = r.X,
                           !.call = [c \in DOMAIN To.call |->
                              IF c = e.c THEN [To.call[c] EXCEPT !.st = "committed", !.exp = r.ret]
-                             ELSE IF To.call[c].op # "none" /\ To.call[c].st = "open"
+                             ELSE IF To.call[c].op # "none" /\ (To.call[c].st = "open" \/ To.call[c].op = "setdefault")
                              THEN [To.call[c] EXCEPT !.cand = @ \cup {IDispatch(r.X, To.call[c]).ret},
                                                      !.written = @ \cup chg]
                              ELSE To.call[c]]], "")
@@ -53,6 +64,9 @@ ConcStep(To, e) ==
             ELSE IF cl.st = "multi" THEN V(TRUE, Tq, "")
             ELSE IF cl.st = "committed"
             THEN IF e.ret = cl.exp THEN V(TRUE, Tq, "")
+                 \* setdefault is "look up, add, look up again": its result may be a value another client assigned
+                 \* after the insertion (still one of the values the key had during the call)
+                 ELSE IF cl.op = "setdefault" /\ e.ret \in cl.cand THEN V(TRUE, Tq, "")
                  ELSE V(FALSE, To, "C12 " \o cl.op \o " returned " \o ToJson(e.ret) \o " expected " \o ToJson(cl.exp))
             ELSE IF e.ret \in cl.cand THEN V(TRUE, Tq, "")
             \* a lookup overlapping a removal of the same key that is still in flight may already miss it
@@ -62,7 +76,9 @@ ConcStep(To, e) ==
                        \/ To.call[d].op \in {"popitem", "clear"}
             THEN V(TRUE, Tq, "")
             \* known finding: a lookup overlapping the replacement of a file-backed value raises KeyError
-            ELSE IF "D_lookup_replace_race" \in Dev /\ cl.op = "getitem" /\ e.ret = IKeyError /\ cl.a.k \in cl.written
+            \* (membership of a MutableMapping is "try self[key]": the same lookup)
+            ELSE IF "D_lookup_replace_race" \in Dev /\ cl.a.k \in cl.written /\
+                    ((cl.op = "getitem" /\ e.ret = IKeyError) \/ (cl.op = "contains" /\ e.ret = IR("false", <<>>)))
             THEN V(TRUE, [Tq EXCEPT !.known = @ \cup {"D_lookup_replace_race"}], "KNOWN")
             ELSE V(FALSE, To, "C12 " \o cl.op \o " returned " \o ToJson(e.ret) \o
                               " which no contents committed during the call explain: " \o ToJson(cl.cand))
